@@ -41,12 +41,14 @@ func newScriptSource(name string) *scriptSource {
 var pcEpoch = time.Date(2024, 1, 1, 0, 0, 0, 0, time.UTC)
 
 // versionTime is the advertisement time of version v: strictly increasing in v as an instant, written the way
-// different indexers write it (other zone offsets, fractional seconds), so that the text of a later time does not
+// different indexers write it (other zone offsets, fractional seconds, several versions within one second), so that the text of a later time does not
 // always sort after the text of an earlier one.
 func versionTime(v int) string {
-	t := pcEpoch.Add(time.Duration(v) * time.Second)
+	// 300 ms apart (+100 ms for every third): consecutive versions usually fall into the same whole second, so an
+	// implementation that compares at second resolution sees them as equal
+	t := pcEpoch.Add(time.Duration(v) * 300 * time.Millisecond)
 	if v%3 == 0 {
-		t = t.Add(500 * time.Millisecond)
+		t = t.Add(100 * time.Millisecond)
 	}
 	return t.In(pcZones[v%len(pcZones)]).Format(time.RFC3339Nano)
 }
